@@ -163,7 +163,9 @@ pub fn codes(r: &Reader) -> Value {
                 }
                 deltas.push(json!([d.ingredient_assertion_uri(), one]));
             }
-            deltas.sort_by_key(|d| d[0].as_str().unwrap_or("").to_string());
+            // (sorted by content: the URIs carry manifest labels that differ from one signing to the next, so sorting by
+            // URI would order the same set differently in two runs)
+            deltas.sort_by_key(|d| d[1].to_string());
             let deltas: Vec<Value> = deltas.into_iter().map(|d| d[1].clone()).collect();
             return json!({"present": r.validation_results().map(|v| v.active_manifest().is_some()).unwrap_or(false),
                           "active": active, "deltas": deltas, "state": state_str(r)});
